@@ -76,7 +76,7 @@ periodic direction and is completed along a non-periodic one, the box is enlarge
 non-periodic axis, and the loop removes the tested atoms and the new cluster's atoms from the search -/
 theorem entry_rules_ok :
     MatidGen.SbcRule.zeroTestIsRow = true ∧ MatidGen.SbcRule.zeroPbcRaises = true ∧ MatidGen.SbcRule.scaleCond = true ∧
-    MatidGen.SbcRule.loopRemovesTested = true := by decide
+    MatidGen.SbcRule.repairGuardNotAll = true ∧ MatidGen.SbcRule.loopRemovesTested = true := by decide
 
 /-- no state survives a call: class SBC has no constructor, the only attribute it assigns is the random generator (seeded
 at entry of every call), and `PeriodicFinder.get_region` assigns its attributes unconditionally at the start of each call —
